@@ -182,6 +182,42 @@ def run_cases(prop, cases, ck, sh=None, spec="TV_Store", nshards=None, budget_ms
     return merged
 
 
+def merge_into(merged, m2):
+    """adds the result of a second replay+validation run (other trace spec / other cases) to `merged`"""
+    for k in ("events", "states", "transitions", "traces", "evaluations", "distinct", "cases", "t_replay", "t_tv"):
+        merged[k] += m2[k]
+    off = len(merged["traces_paths"])
+    for v in m2["viol"]:
+        v["shard"] += off
+    for v in m2["drift"]:
+        v["shard"] += off
+    merged["viol"] += m2["viol"]
+    merged["drift"] += m2["drift"]
+    merged["hangs"] += m2["hangs"]
+    merged["scripts"] += m2["scripts"]
+    merged["traces_paths"] += m2["traces_paths"]
+    merged["stage_sampled"] = merged.get("stage_sampled", 0) + m2.get("stage_sampled", 0)
+    merged["tlc_generated_cases"] = merged.get("tlc_generated_cases", 0) + m2.get("tlc_generated_cases", 0)
+    for k, n in m2["cnt"].items():
+        merged["cnt"][k] = merged["cnt"].get(k, 0) + n
+    return merged
+
+
+def tlc_generated_tm_cases(tier):
+    """cases enumerated by TLC from the bounded model (GEN_TextMatch.tla), wrapped as `tm` operations"""
+    rows = tlc_generate("GEN_TextMatch", "GEN_TextMatch_q.cfg" if tier == "quick" else "GEN_TextMatch_t.cfg", "gen_tm_" + tier)
+    cases = []
+    chunk = 400
+    for i in range(0, len(rows), chunk):
+        c = gen.Case("GEN", "tm")
+        for r in rows[i:i + chunk]:
+            r = dict(r)
+            r["op"] = "tm"
+            c.ops.append(r)
+        cases.append(c)
+    return cases, len(rows)
+
+
 # ------------------------------------------------------------------------------------------------ verdict
 def load_known():
     if os.path.exists(KNOWN):
@@ -295,6 +331,7 @@ def verdict(prop, tier, seed, merged, l1, t0, level_extra=None, spec="TV_Store")
             "predicate_evaluations_per_property": merged["cnt"],
             "drift_notes": len(merged["drift"]),
             "pipeline_conformance_events": merged.get("stage_sampled", 0),
+            "tlc_generated_cases_replayed": merged.get("tlc_generated_cases", 0),
             "violations_of_other_properties_seen": others,
             "exhaustive": False,
             "replay_s": round(merged["t_replay"], 1), "tv_s": round(merged["t_tv"], 1),
@@ -435,6 +472,13 @@ def run_property(prop, tier, seed):
     pools, toks = build_pools(ck, tier, rnd)
     cases = cases_for(prop, tier, seed, pools, toks, ck)
     merged = run_cases(prop, cases, ck, sh, stage_budget=sizes(tier, 200, 4000))
+    if prop in ("C01", "C05", "C09"):
+        # specification -> implementation: literal texts enumerated by TLC from the bounded model, run through the real
+        # text_match / score / highlight and compared field by field with the specification (TV_Comp)
+        gc, n = tlc_generated_tm_cases(tier)
+        m2 = run_cases(prop + "g", gc, ck, None, spec="TV_Comp")
+        m2["tlc_generated_cases"] = n
+        merge_into(merged, m2)
     return verdict(prop, tier, seed, merged, l1, t0)
 
 
@@ -459,18 +503,7 @@ def plan_components(prop, tier, seed, t0):
         for lang in gen.LANGS:
             sc += gen.gen_histories("C19", lang, rnd, pools[lang] + gen.ADVERSARIAL, toks, sizes(tier, 5, 150), length=16, adversarial=True)
         m2 = run_cases(prop + "s", sc, ck, None, spec="TV_Store")
-        for k in ("events", "states", "transitions", "traces", "evaluations", "distinct", "cases", "t_replay", "t_tv"):
-            merged[k] += m2[k]
-        off = len(merged["traces_paths"])
-        for v in m2["viol"]:
-            v["shard"] += off
-        merged["viol"] += m2["viol"]
-        merged["drift"] += m2["drift"]
-        merged["hangs"] += m2["hangs"]
-        merged["scripts"] += m2["scripts"]
-        merged["traces_paths"] += m2["traces_paths"]
-        for k, n in m2["cnt"].items():
-            merged["cnt"][k] = merged["cnt"].get(k, 0) + n
+        merge_into(merged, m2)
     return verdict(prop, tier, seed, merged, l1, t0, spec="TV_Comp")
 
 
